@@ -126,6 +126,12 @@ def payload_error(data, with_periods: bool = True) -> str | None:
                 return 'track lang must be a string'
             if not isinstance(trk.get('encrypted', False), bool):
                 return 'track encrypted must be a boolean'
+        track_ids = [trk['track_id'] for trk in period['tracks']]
+        if len(set(track_ids)) != len(track_ids):
+            return 'the track IDs of a period must be unique'
+    pids = [period['pid'] for period in data['periods']]
+    if len(set(pids)) != len(pids):
+        return 'period IDs must be unique'
     return None
 
 
